@@ -106,11 +106,15 @@ def generated(chk, arch, quick):
 
 
 def csv_scenarios(chk, quick):
-    cfg = mp.write_cfg("mc_csvfaults.cfg", "SPECIFICATION Spec\nCONSTANT MaxRows = %d\nINVARIANT Export\n" % (2 if quick else 3))
+    cfg = mp.write_cfg("mc_csvfaults.cfg", "SPECIFICATION Spec\nCONSTANT MaxRows = %d\nINVARIANTS Export ExportWide\n" % (2 if quick else 3))
     r = vlib.tlc("MC_CsvFaults", cfg=cfg, timeout=1500)
     chk.add_tlc("MC_CsvFaults scenarios", r)
     out, seen = [], set()
     for i, g in enumerate(r.printed("GEN")):
+        if "wload" in g:
+            ld = g["wload"]
+            out.append({"id": "csvwide%d" % i, "save": False, "stream": True, "doc": ld["doc"], "keys": ld["keys"], "pol": ld["pol"], "exp": ld["exp"], "always": True})
+            continue
         sv, ld = g["save"], g["load"]
         out.append({"id": "csvsave%d" % i, "save": True, "stream": sv["stream"], "rows": sv["rows"], "opt": sv["opt"], "pol": sv["pol"], "exp": sv["exp"]})
         key = json.dumps([ld["doc"], ld["stream"], ld["keys"], ld["pol"]])
@@ -149,7 +153,7 @@ def fault_leg(chk, tier, arch):
         if "exp" not in s and outcome(p) != "none":
             chk.fail("%s: fault-free run of %s raised %s" % (arch, s["id"], json.dumps(p["exc"])), {"arch": arch, "scenario": s, "observed": p})
             continue
-        if i % step == 0 or ("exp" in s and s["exp"] == "exception" and i % 3 == 0):
+        if i % step == 0 or s.get("always") or ("exp" in s and s["exp"] == "exception" and i % 3 == 0):
             chosen.append(s)
             pl.append({"id": s["id"], "arch": arch, "save": bool(s.get("save")), "stream": bool(s.get("stream")), "allocs": p["allocs"],
                        "doc": s.get("doc", []), "unit": UNITS.get(s.get("enc", "utf8"), (1, False))[0], "be": UNITS.get(s.get("enc", "utf8"), (1, False))[1], "produced": p["produced"], "probe": outcome(p), "pev": evs(p)})
